@@ -143,6 +143,19 @@ class Session:
             self.constrain(">=0", s.p)
         return np.array(s, dtype=object) if wrap else s
 
+    def bit(self, name):
+        """a 0/1-valued variable: m*m is rewritten to m by the polynomial arithmetic (multilinear normal form) and m*(m-1) == 0 is a
+        solver constraint"""
+        idx = self.V.get(name, "free")
+        self.V.red[idx] = P.var(idx)
+        s = SymC(self, P.var(idx))
+        if not getattr(self, "_bits", None):
+            self._bits = set()
+        if idx not in self._bits:
+            self._bits.add(idx)
+            self.constrain("==0", P.sub(P.mul(s.p, s.p, self.V) if False else {((idx, 2),): F(1)}, s.p))
+        return s
+
     def cplx(self, name, wrap=False):
         re, im = self.real(name + "_re"), self.real(name + "_im")
         s = re + im * self.I()
@@ -690,6 +703,38 @@ class SymC:
         raise Unsupported("// on symbolic value")
 
     __rfloordiv__ = __floordiv__
+
+    # bit-valued terms (measurement outcomes): logical operators as polynomials
+    def __xor__(a, b):
+        b = a._l(b)
+        return a + b - a * b * 2
+
+    __rxor__ = __xor__
+
+    def __and__(a, b):
+        b = a._l(b)
+        return a * b
+
+    __rand__ = __and__
+
+    def __or__(a, b):
+        b = a._l(b)
+        return a + b - a * b
+
+    __ror__ = __or__
+
+    def __invert__(a):
+        return a.S.lift(1) - a
+
+    # numpy's object-dtype ufuncs call methods of these names on the elements
+    logical_xor = bitwise_xor = __xor__
+    logical_and = bitwise_and = __and__
+    logical_or = bitwise_or = __or__
+
+    def logical_not(a):
+        return a.S.lift(1) - a
+
+    invert = bitwise_not = logical_not
 
     def __abs__(a):
         S = a.S
